@@ -169,7 +169,13 @@ func c05OpTerm(c *c05Chain, op c05Op, sysfee int64) string {
 		}
 		return fmt.Sprintf("(OVote %s %s)", c05N(from), keyOpt(k))
 	case "reg":
-		return fmt.Sprintf("(OReg %s %s)", c05N(ownKey), coqZi(sysfee))
+		k := ownKey
+		if op.To > 0 {
+			if kk, ok := u.keyOfAcct[op.To]; ok {
+				k = kk
+			}
+		}
+		return fmt.Sprintf("(OReg %s %s)", c05N(k), coqZi(sysfee))
 	case "regpay":
 		return fmt.Sprintf("(OGasT %s %s %s (DKey %s))", c05N(op.F), c05N(c05ANeo), coqZi(op.A), c05N(ownKey))
 	case "unreg":
